@@ -292,7 +292,8 @@ func c11Check(e *core.Env, r *core.Rand, text string, rec *ref.Recognition, cmd 
 		if err := os.WriteFile(file, []byte(text), 0644); err != nil {
 			panic(err)
 		}
-		res := runMutating(e, cmd, env, file, false)
+		// in 1 case of 5 the first repetition goes through the argument decoders of the full CLI: same bytes as the others
+		res := runMutating(e, cmd, env, file, k == 0 && core.Hash64("c11-cli", text, cmd.String())%5 == 0)
 		if res.Panic != nil {
 			e.Violation("command-panic: "+res.Panic.Site(), fmt.Sprintf("`klog %s` panicked: %s", cmd.String(), res.Panic.Value), w)
 			return
